@@ -56,6 +56,9 @@ def write_evidence(ctx):
     }
     os.makedirs(os.path.join(VERIF, "evidence"), exist_ok=True)
     path = os.path.join(VERIF, "evidence", f"{ctx.pid}.json")
+    if os.environ.get("VERIF_REPO", "/repo") != "/repo":
+        # a run against a scratch copy (mutation testing) never overwrites the evidence of the real tree
+        path = os.path.join(ctx.work, "evidence_scratch_repo.json")
     with open(path, "w") as f:
         json.dump(ev, f, indent=1, default=str)
     try:
